@@ -266,6 +266,14 @@ func execRoundtrip(a []string) Result {
 			case 1:
 				h, _ := mh.Sum([]byte{}, mh.IDENTITY, -1)
 				blk = block.NewBlock(cidlink.Link{Cid: cid.NewCidV1(0x55, h)}, []byte{})
+			case 2: // a block addressed by a CIDv0 (sha2-256, dag-pb implied)
+				data := []byte{0x0a, 0x01, byte(100 + k)}
+				h, _ := mh.Sum(data, mh.SHA2_256, -1)
+				blk = block.NewBlock(cidlink.Link{Cid: cid.NewCidV0(h)}, data)
+			case 3: // a block addressed by a sha2-256 digest truncated to 20 bytes
+				data := []byte{0x18, byte(100 + k)}
+				h, _ := mh.Sum(data, mh.SHA2_256, 20)
+				blk = block.NewBlock(cidlink.Link{Cid: cid.NewCidV1(0x55, h)}, data)
 			}
 		}
 		if id >= 10000 {
